@@ -210,3 +210,8 @@ from contracts import bcrypt_sha256_nu as _bnu  # noqa: E402
 
 CONTRACTS.append(_bnu.contract("C09"))
 MUTANTS += _bnu.MUTANTS
+
+# ---- a hasher derived with using(truncate_error=True) applies the policy to the bytes it hashes, whatever encoding the call names ----
+from contracts import c05 as _c05lm  # noqa: E402
+
+CONTRACTS.append(_c05lm.lmhash_encoding)
